@@ -359,6 +359,494 @@ neg("C03", "neg-nextid-modulo", "automatic ids computed as (n % 65535) + 1",
     [(HDR, "	for {\n		if id := uint16(atomic.AddUint64(&gPacketID, 1) & 0xffff); id != 0 {\n			return id\n		}\n	}",
       "	return uint16(atomic.AddUint64(&gPacketID, 1)%65535) + 1")])
 
+# ---------------------------------------------------------------- C05
+MISC = "service/misc.go"
+PEEK_ERR = """		msg, n, err := p.peekMessage(mtype, total)
+		if err != nil {
+			if !isEOF(err) {
+				log.Warningf("(%s) Error peeking next message: %v", p.cid(), err)
+			}
+			return
+		}
+"""
+pos("C05", "processor-spins-on-malformed-packet", "a packet that does not decode is retried forever instead of ending the connection",
+    [(PROC, PEEK_ERR, PEEK_ERR.replace("			return\n", "			continue\n"))],
+    ["C05/P6-on-all-exits/processor:error-of-peekMessage-ends-connection"])
+pos("C05", "framing-reader-unbounded-allocation", "the handshake reader allocates whatever the length field says",
+    [(MISC, "	if remlen > maxRemainingLength {\n		return nil, fmt.Errorf(\"connect/getMessage: remaining length (%d) out of bound (max %d)\", remlen, maxRemainingLength)\n	}\n", ""),
+     (MISC, "		if l > 4 {", "		if l > 9 {")],
+    ["C05/B4-bounded-allocation/getMessageBuffer"])
+pos("C05", "receiver-ignores-read-error", "the receiver keeps calling ReadFrom on a dead connection",
+    [(SR, """			_, err := svc.in.ReadFrom(r)
+
+			if err != nil {
+				if !isEOF(err) {
+					log.Debugf("(%s) Reading from connection failed: %v", svc.cid(), err)
+				}
+				return
+			}
+""", """			_, err := svc.in.ReadFrom(r)
+
+			if err != nil {
+				if !isEOF(err) {
+					log.Debugf("(%s) Reading from connection failed: %v", svc.cid(), err)
+				}
+			}
+""")],
+    ["C05/P6-on-all-exits/pump:receiver:leaves-loop-on-error"])
+pos("C05", "readfrom-keeps-ring-open", "the receiving pump ends without closing the ring: the processor waits forever",
+    [(BUF, "func (bf *buffer) ReadFrom(r io.Reader) (int64, error) {\n	defer bf.Close()\n", "func (bf *buffer) ReadFrom(r io.Reader) (int64, error) {\n")],
+    ["C05/P6-on-all-exits/pump:ReadFrom:closes-ring-on-every-exit"])
+pos("C05", "sremove-prunes-node-with-children", "removing a subscription deletes the subtree of deeper subscriptions",
+    [(MT, "	if len(n.subs) == 0 && len(n.snodes) == 0 {\n		delete(sn.snodes, level)", "	if len(n.subs) == 0 {\n		delete(sn.snodes, level)")],
+    ["C05/T4-prune-guard-complete/sremove"])
+pos("C05", "publish-decoder-drops-length-check", "a C04 decoder control seen from C05",
+    [(PUB, "	if l < 0 {\n		return total, fmt.Errorf(\"publish/Decode: Remaining length (%d) is shorter than the variable header (%d)\", m.remlen, total-hn)\n	}\n", "")],
+    ["C05/B1-in-bounds/(*message.PublishMessage).Decode:slice"])
+neg("C05", "neg-processor-error-helper", "processor error exits through a helper that logs",
+    [(PROC, PEEK_ERR, """		msg, n, err := p.peekMessage(mtype, total)
+		if err != nil {
+			p.logUnlessEOF("Error peeking next message", err)
+			return
+		}
+"""),
+     (PROC, "func (p *service) processIncoming(msg message.Message) error {", """func (p *service) logUnlessEOF(what string, err error) {
+	if !isEOF(err) {
+		log.Warningf("(%s) %s: %v", p.cid(), what, err)
+	}
+}
+
+func (p *service) processIncoming(msg message.Message) error {""")])
+neg("C05", "neg-receiver-break", "receiver leaves its loop with break",
+    [(SR, """				if !isEOF(err) {
+					log.Debugf("(%s) Reading from connection failed: %v", svc.cid(), err)
+				}
+				return
+			}
+		}
+
+	default:
+		log.Errorf("(%s) %v", svc.cid(), ErrInvalidConnectionType)""", """				if !isEOF(err) {
+					log.Debugf("(%s) Reading from connection failed: %v", svc.cid(), err)
+				}
+				break
+			}
+		}
+
+	default:
+		log.Errorf("(%s) %v", svc.cid(), ErrInvalidConnectionType)""")])
+neg("C05", "neg-framing-reader-ge", "length-byte limit written as l >= 5",
+    [(MISC, "		if l > 4 {", "		if l >= 5 {")])
+neg("C05", "neg-sremove-prune-helper", "prune condition in a method",
+    [(MT, "	if len(n.subs) == 0 && len(n.snodes) == 0 {\n		delete(sn.snodes, level)", "	if n.isEmpty() {\n		delete(sn.snodes, level)"),
+     (MT, "func (sn *snode) sremove(topic []byte, sub interface{}) error {", "func (sn *snode) isEmpty() bool {\n	return len(sn.subs) == 0 && len(sn.snodes) == 0\n}\n\nfunc (sn *snode) sremove(topic []byte, sub interface{}) error {")])
+neg("C05", "neg-readfrom-explicit-close", "ReadFrom closes the ring through a deferred closure",
+    [(BUF, "func (bf *buffer) ReadFrom(r io.Reader) (int64, error) {\n	defer bf.Close()\n", "func (bf *buffer) ReadFrom(r io.Reader) (int64, error) {\n	defer func() {\n		bf.Close()\n	}()\n")])
+
+# ---------------------------------------------------------------- C06
+pos("C06", "sinsert-appends-duplicate", "a re-subscription is appended instead of replacing the entry",
+    [(MT, "			if equal(sn.subs[i], sub) {\n				sn.qos[i] = qos\n				return nil\n			}\n		}\n\n		// Otherwise add.", "			if equal(sn.subs[i], sub) {\n				sn.qos[i] = qos\n				break\n			}\n		}\n\n		// Otherwise add.")],
+    ["C06/P4-loop-contract/sinsert:replace-not-append"])
+pos("C06", "sremove-lists-out-of-step", "subscriber list and QoS list shrink differently",
+    [(MT, "				sn.qos = append(sn.qos[:i], sn.qos[i+1:]...)\n				return nil", "				sn.qos = sn.qos[:len(sn.qos)-1]\n				return nil")],
+    ["C06/T5-co-update/sremove:parallel-lists-shrink-alike"])
+pos("C06", "subscribe-grants-requested", "the granted QoS is no longer capped",
+    [(MT, "	if qos > MaxQosAllowed {\n		qos = MaxQosAllowed\n	}", "	if qos < MaxQosAllowed {\n		qos = MaxQosAllowed\n	}")],
+    ["C06/T7-min-idiom/MemTopics.Subscribe:granted=min(requested,max)"])
+pos("C06", "subscribe-mutates-before-validation", "a nil subscriber is inserted before it is rejected",
+    [(MT, "	if sub == nil {\n		return message.QosFailure, fmt.Errorf(\"Subscriber cannot be nil\")\n	}\n\n	mt.smu.Lock()\n	defer mt.smu.Unlock()\n\n	if qos > MaxQosAllowed {\n		qos = MaxQosAllowed\n	}\n\n	if err := mt.sroot.sinsert(topic, qos, sub); err != nil {\n		return message.QosFailure, err\n	}\n",
+      "	mt.smu.Lock()\n	defer mt.smu.Unlock()\n\n	if qos > MaxQosAllowed {\n		qos = MaxQosAllowed\n	}\n\n	if err := mt.sroot.sinsert(topic, qos, sub); err != nil {\n		return message.QosFailure, err\n	}\n\n	if sub == nil {\n		return message.QosFailure, fmt.Errorf(\"Subscriber cannot be nil\")\n	}\n")],
+    ["C06/P5-order/MemTopics.Subscribe:rejects(anilsubscriber)"])
+pos("C06", "unsubscribe-without-lock", "the tree is modified outside the subscription lock",
+    [(MT, "func (mt *MemTopics) Unsubscribe(topic []byte, sub interface{}) error {\n	mt.smu.Lock()\n	defer mt.smu.Unlock()\n", "func (mt *MemTopics) Unsubscribe(topic []byte, sub interface{}) error {\n")],
+    ["C06/G1-guarded-by/MemTopics.Unsubscribe:sremove-under-MemTopics.smu"])
+neg("C06", "neg-sinsert-found-flag", "sinsert with a found flag",
+    [(MT, "		for i := range sn.subs {\n			if equal(sn.subs[i], sub) {\n				sn.qos[i] = qos\n				return nil\n			}\n		}\n\n		// Otherwise add.\n		sn.subs = append(sn.subs, sub)\n		sn.qos = append(sn.qos, qos)\n\n		return nil",
+      "		found := false\n		for i := range sn.subs {\n			if equal(sn.subs[i], sub) {\n				sn.qos[i] = qos\n				found = true\n				break\n			}\n		}\n\n		if !found {\n			sn.subs = append(sn.subs, sub)\n			sn.qos = append(sn.qos, qos)\n		}\n\n		return nil")])
+neg("C06", "neg-subscribe-explicit-unlock", "Subscribe with explicit unlocks",
+    [(MT, "	mt.smu.Lock()\n	defer mt.smu.Unlock()\n\n	if qos > MaxQosAllowed {\n		qos = MaxQosAllowed\n	}\n\n	if err := mt.sroot.sinsert(topic, qos, sub); err != nil {\n		return message.QosFailure, err\n	}\n\n	return qos, nil",
+      "	if qos > MaxQosAllowed {\n		qos = MaxQosAllowed\n	}\n\n	mt.smu.Lock()\n	err := mt.sroot.sinsert(topic, qos, sub)\n	mt.smu.Unlock()\n	if err != nil {\n		return message.QosFailure, err\n	}\n\n	return qos, nil")])
+neg("C06", "neg-sremove-copy-shift", "sremove shifts with copy",
+    [(MT, "				sn.subs = append(sn.subs[:i], sn.subs[i+1:]...)\n				sn.qos = append(sn.qos[:i], sn.qos[i+1:]...)\n				return nil",
+      "				copy(sn.subs[i:], sn.subs[i+1:])\n				sn.subs = sn.subs[:len(sn.subs)-1]\n				copy(sn.qos[i:], sn.qos[i+1:])\n				sn.qos = sn.qos[:len(sn.qos)-1]\n				return nil")])
+
+# ---------------------------------------------------------------- C07
+pos("C07", "subscribe-returns-on-rejected-filter", "the fix of e3bf60d undone: no SUBACK when the tree rejects a filter",
+    [(PROC, "			retcodes = append(retcodes, message.QosFailure)\n			continue\n", "			return err\n")],
+    ["C07/P6-on-all-exits/SUBSCRIBE"])
+pos("C07", "suback-with-fixed-code", "the SUBACK reports the requested QoS instead of the tree's answer",
+    [(PROC, "		retcodes = append(retcodes, rqos)\n", "		retcodes = append(retcodes, qos[i])\n		_ = rqos\n")],
+    ["C07/P4-loop-contract/SUBSCRIBE-loop:code-is-tree-answer"])
+pos("C07", "unsuback-before-tree-update", "the UNSUBACK is written before the subscriptions are removed",
+    [(PROC, """	topics := msg.Topics()
+
+	for _, t := range topics {
+		p.topicsMgr.Unsubscribe(t, &p.onpub)
+		p.sess.RemoveTopic(string(t))
+	}
+
+	resp := message.NewUnsubackMessage()
+	resp.SetPacketID(msg.PacketID())
+
+	_, err := p.writeMessage(resp)
+	return err
+""", """	topics := msg.Topics()
+
+	resp := message.NewUnsubackMessage()
+	resp.SetPacketID(msg.PacketID())
+
+	_, err := p.writeMessage(resp)
+
+	for _, t := range topics {
+		p.topicsMgr.Unsubscribe(t, &p.onpub)
+		p.sess.RemoveTopic(string(t))
+	}
+
+	return err
+""")],
+    ["C07/P5-order/UNSUBSCRIBE:no-tree-update-after-UNSUBACK"])
+pos("C07", "suback-id-not-copied", "SUBACK without the request's packet id",
+    [(PROC, "	resp := message.NewSubackMessage()\n	resp.SetPacketID(msg.PacketID())\n", "	resp := message.NewSubackMessage()\n")],
+    ["C07/P3-ack-id/SUBSCRIBE:id(SUBACK)"])
+pos("C07", "retained-before-suback", "retained messages are sent before the SUBACK",
+    [(PROC, """	if _, err := p.writeMessage(resp); err != nil {
+		return err
+	}
+
+	for _, rm := range p.rmsgs {
+		if err := p.publish(rm, nil); err != nil {
+			log.Warningf("(%s) Error publishing retained message: %v", p.cid(), err)
+			return err
+		}
+	}
+
+	return nil
+""", """	for _, rm := range p.rmsgs {
+		if err := p.publish(rm, nil); err != nil {
+			log.Warningf("(%s) Error publishing retained message: %v", p.cid(), err)
+			return err
+		}
+	}
+
+	if _, err := p.writeMessage(resp); err != nil {
+		return err
+	}
+
+	return nil
+""")],
+    ["C07/P5-order/SUBSCRIBE:retained-after-SUBACK"])
+neg("C07", "neg-unsubscribe-inline-topics", "UNSUBSCRIBE loop ranges over msg.Topics() directly, response built first",
+    [(PROC, """	topics := msg.Topics()
+
+	for _, t := range topics {
+		p.topicsMgr.Unsubscribe(t, &p.onpub)
+		p.sess.RemoveTopic(string(t))
+	}
+
+	resp := message.NewUnsubackMessage()
+	resp.SetPacketID(msg.PacketID())
+
+	_, err := p.writeMessage(resp)
+	return err
+""", """	resp := message.NewUnsubackMessage()
+	resp.SetPacketID(msg.PacketID())
+
+	for _, t := range msg.Topics() {
+		filter := string(t)
+		p.topicsMgr.Unsubscribe(t, &p.onpub)
+		p.sess.RemoveTopic(filter)
+	}
+
+	if _, err := p.writeMessage(resp); err != nil {
+		return err
+	}
+	return nil
+""")])
+neg("C07", "neg-subscribe-suback-helper", "SUBACK assembled and written by a helper",
+    [(PROC, """	if err := resp.AddReturnCodes(retcodes); err != nil {
+		return err
+	}
+
+	if _, err := p.writeMessage(resp); err != nil {
+		return err
+	}
+""", """	if err := p.sendSuback(resp, retcodes); err != nil {
+		return err
+	}
+"""),
+     (PROC, "// For UNSUBSCRIBE message, we should remove the subscriber, and send back UNSUBACK", """func (p *service) sendSuback(resp *message.SubackMessage, retcodes []byte) error {
+	if err := resp.AddReturnCodes(retcodes); err != nil {
+		return err
+	}
+
+	_, err := p.writeMessage(resp)
+	return err
+}
+
+// For UNSUBSCRIBE message, we should remove the subscriber, and send back UNSUBACK""")])
+neg("C07", "neg-subscribe-code-local", "return code through a local and a switch on the error",
+    [(PROC, """		rqos, err := p.topicsMgr.Subscribe(t, qos[i], &p.onpub)
+		if err != nil {
+			// The filter is rejected: report the failure for this filter in the
+			// SUBACK (MQTT-3.9.3) and go on with the remaining filters.
+			log.Warningf("(%s) Subscribing topic %q failed: %v", p.cid(), string(t), err)
+			retcodes = append(retcodes, message.QosFailure)
+			continue
+		}
+""", """		want := qos[i]
+		rqos, err := p.topicsMgr.Subscribe(t, want, &p.onpub)
+		if err != nil {
+			log.Warningf("(%s) Subscribing topic %q failed: %v", p.cid(), string(t), err)
+			var code byte = message.QosFailure
+			retcodes = append(retcodes, code)
+			continue
+		}
+""")])
+
+# ---------------------------------------------------------------- C08
+DOWNGRADE = """			nrmsgs := p.rmsgs[rlen:]
+			for j := range nrmsgs {
+				if nrmsgs[j].QoS() > rqos {
+					// do not alter retained message
+					m, err := nrmsgs[j].Clone()
+					if err != nil {
+						log.Warningf("Clone of message failed: %v", err)
+					} else {
+						// downgrade qos
+						m.SetQoS(rqos)
+						// affects p.rmsgs
+						nrmsgs[j] = m
+					}
+				}
+			}
+"""
+FORWARD = """			// reset retain flag (MQTT-3.3.1-9)
+			sr := msg.Retain()
+			if sr {
+				msg.SetRetain(false)
+			}
+"""
+pos("C08", "retain-when-flag-clear", "messages without the RETAIN flag are stored, flagged ones are not",
+    [(PROC, "	if msg.Retain() {\n		// Retain makes a copy of msg.\n		if err := p.topicsMgr.Retain(msg); err != nil {", "	if !msg.Retain() {\n		// Retain makes a copy of msg.\n		if err := p.topicsMgr.Retain(msg); err != nil {")],
+    ["C08/P8-guard-contract/onPublish:retain-iff-flag"])
+pos("C08", "rinsert-keeps-callers-message", "the store keeps the publisher's message object, which the fan-out rewrites",
+    [(MT, "		rn.buf = buf\n		rn.msg = rmsg\n", "		rn.buf = buf\n		rn.msg = msg\n		_ = rmsg\n")],
+    ["C08/G6-fresh-copy-on-retention/(*topics.rnode).rinsert:store(rnode.msg)"])
+pos("C08", "downgrade-in-place", "the stored retained message is downgraded for everybody",
+    [(PROC, DOWNGRADE, """			nrmsgs := p.rmsgs[rlen:]
+			for j := range nrmsgs {
+				if nrmsgs[j].QoS() > rqos {
+					nrmsgs[j].SetQoS(rqos)
+				}
+			}
+""")],
+    ["C08/G7-clone-before-mutate/processSubscribe:SetQoS-on-clone"])
+pos("C08", "empty-payload-is-stored", "an empty retained publish no longer clears the topic",
+    [(MT, "	if len(msg.Payload()) == 0 {\n		return mt.rroot.rremove(msg.Topic())\n	}\n\n", "")],
+    ["C08/P8-guard-contract/MemTopics.Retain:empty-payload-clears"])
+pos("C08", "forward-keeps-retain-flag", "live forwards carry RETAIN=1",
+    [(SVC, FORWARD, "			sr := false\n")],
+    ["C08/P5-order/forward:retain-flag-cleared-before-write"])
+pos("C08", "downgrade-comparison-reversed", "retained messages are upgraded to the granted QoS",
+    [(PROC, "				if nrmsgs[j].QoS() > rqos {", "				if nrmsgs[j].QoS() < rqos {")],
+    ["C08/T7-min-idiom/processSubscribe:retained-downgrade=min(stored,granted)"])
+neg("C08", "neg-retain-flag-local", "the RETAIN flag in a local",
+    [(PROC, "	if msg.Retain() {\n		// Retain makes a copy of msg.\n		if err := p.topicsMgr.Retain(msg); err != nil {", "	retain := msg.Retain()\n	if retain {\n		// Retain makes a copy of msg.\n		if err := p.topicsMgr.Retain(msg); err != nil {")])
+neg("C08", "neg-rinsert-order", "message stored before its buffer",
+    [(MT, "		rn.buf = buf\n		rn.msg = rmsg\n", "		rn.msg = rmsg\n		rn.buf = buf\n")])
+neg("C08", "neg-downgrade-continue", "downgrade loop with an early continue",
+    [(PROC, DOWNGRADE, """			nrmsgs := p.rmsgs[rlen:]
+			for j := range nrmsgs {
+				if nrmsgs[j].QoS() <= rqos {
+					continue
+				}
+				// do not alter retained message
+				m, err := nrmsgs[j].Clone()
+				if err != nil {
+					log.Warningf("Clone of message failed: %v", err)
+					continue
+				}
+				m.SetQoS(rqos)
+				nrmsgs[j] = m
+			}
+""")])
+neg("C08", "neg-forward-restore-deferred", "the forwarding closure restores the flag in a defer",
+    [(SVC, """			// reset retain flag (MQTT-3.3.1-9)
+			sr := msg.Retain()
+			if sr {
+				msg.SetRetain(false)
+			}
+
+			if err := svc.publish(msg, nil); err != nil {
+				log.Errorf("(%s) Error publishing message: %v", svc.cid(), err)
+				return err
+			}
+
+			// restore retain flag
+			if sr {
+				msg.SetRetain(true)
+			}
+			return nil
+""", """			// reset retain flag (MQTT-3.3.1-9)
+			if msg.Retain() {
+				msg.SetRetain(false)
+				defer msg.SetRetain(true)
+			}
+
+			if err := svc.publish(msg, nil); err != nil {
+				log.Errorf("(%s) Error publishing message: %v", svc.cid(), err)
+				return err
+			}
+			return nil
+""")])
+
+# ---------------------------------------------------------------- C09
+WILL_BLOCK = """	if !svc.client && svc.sess.Cmsg.WillFlag() {
+		log.Warningf("(%s) Connection unexpectedly closed, sending will message", svc.cid())
+		svc.onPublish(svc.sess.Will)
+	}
+"""
+pos("C09", "disconnect-keeps-will", "a clean DISCONNECT still publishes the will",
+    [(PROC, "		p.sess.Cmsg.SetWillFlag(false)\n		return errDisconnect", "		return errDisconnect")],
+    ["C09/P2-case-contract/DISCONNECT:clears-will-flag"])
+pos("C09", "will-regardless-of-flag", "teardown publishes a will although none was requested",
+    [(SVC, WILL_BLOCK, WILL_BLOCK.replace("if !svc.client && svc.sess.Cmsg.WillFlag() {", "if !svc.client && svc.sess.Will != nil {"))],
+    ["C09/P8-guard-contract/teardown:will-iff-flag"])
+pos("C09", "update-keeps-previous-will", "a resumed session without will keeps the will of the previous connection",
+    [(SESS, "	s.Will = nil\n	if s.Cmsg.WillFlag() {", "	if s.Cmsg.WillFlag() {")],
+    ["C09/T5-co-update/Update:clears-will-without-flag"])
+pos("C09", "will-qos-dropped", "the will is always published at QoS 0",
+    [(SESS, "	s.Will = nil\n	if s.Cmsg.WillFlag() {\n		s.Will = message.NewPublishMessage()\n		s.Will.SetQoS(s.Cmsg.WillQos())", "	s.Will = nil\n	if s.Cmsg.WillFlag() {\n		s.Will = message.NewPublishMessage()\n		s.Will.SetQoS(message.QosAtMostOnce)")],
+    ["C09/T6-will-mapping/Update:will.SetQoS(Cmsg.WillQos())"])
+pos("C09", "pingreq-clears-will", "a PINGREQ disarms the will",
+    [(PROC, "		resp := message.NewPingrespMessage()\n		_, err = p.writeMessage(resp)", "		p.sess.Cmsg.SetWillFlag(false)\n		resp := message.NewPingrespMessage()\n		_, err = p.writeMessage(resp)")],
+    ["C09/P9-who-may/case:PingreqMessage:does-not-touch-will-flag"])
+pos("C09", "processor-keeps-running-after-disconnect", "DISCONNECT is treated like any other error",
+    [(PROC, "			if err != errDisconnect {\n				log.Warningf(\"(%s) Error processing %s: %v\", p.cid(), msg.Name(), err)\n			} else {\n				return\n			}", "			log.Warningf(\"(%s) Error processing %s: %v\", p.cid(), msg.Name(), err)")],
+    ["C09/P2-case-contract/processor:exits-on-disconnect-sentinel"])
+neg("C09", "neg-disconnect-local-session", "DISCONNECT case through locals",
+    [(PROC, "		p.sess.Cmsg.SetWillFlag(false)\n		return errDisconnect", "		cm := p.sess.Cmsg\n		cm.SetWillFlag(false)\n		return errDisconnect")])
+neg("C09", "neg-teardown-will-helper", "will publication extracted into a method",
+    [(SVC, WILL_BLOCK, "	svc.publishWill()\n"),
+     (SVC, "func (svc *service) isDone() bool {", "func (svc *service) publishWill() {\n" + WILL_BLOCK + "}\n\nfunc (svc *service) isDone() bool {")])
+neg("C09", "neg-session-will-helper", "Init and Update share a helper that rebuilds the will",
+    [(SESS, """	if s.Cmsg.WillFlag() {
+		s.Will = message.NewPublishMessage()
+		s.Will.SetQoS(s.Cmsg.WillQos())
+		s.Will.SetTopic(s.Cmsg.WillTopic())
+		s.Will.SetPayload(s.Cmsg.WillMessage())
+		s.Will.SetRetain(s.Cmsg.WillRetain())
+	}
+
+	s.topics = make(map[string]byte, 1)
+""", """	s.rebuildWill()
+
+	s.topics = make(map[string]byte, 1)
+"""),
+     (SESS, """	s.Will = nil
+	if s.Cmsg.WillFlag() {
+		s.Will = message.NewPublishMessage()
+		s.Will.SetQoS(s.Cmsg.WillQos())
+		s.Will.SetTopic(s.Cmsg.WillTopic())
+		s.Will.SetPayload(s.Cmsg.WillMessage())
+		s.Will.SetRetain(s.Cmsg.WillRetain())
+	}
+
+	return nil
+}
+""", """	s.rebuildWill()
+
+	return nil
+}
+
+// rebuildWill derives the will from the current CONNECT message (s.mu held).
+func (s *Session) rebuildWill() {
+	s.Will = nil
+	if !s.Cmsg.WillFlag() {
+		return
+	}
+	w := message.NewPublishMessage()
+	w.SetQoS(s.Cmsg.WillQos())
+	w.SetTopic(s.Cmsg.WillTopic())
+	w.SetPayload(s.Cmsg.WillMessage())
+	w.SetRetain(s.Cmsg.WillRetain())
+	s.Will = w
+}
+""")])
+neg("C09", "neg-processor-sentinel-first", "processor tests the sentinel first",
+    [(PROC, "			if err != errDisconnect {\n				log.Warningf(\"(%s) Error processing %s: %v\", p.cid(), msg.Name(), err)\n			} else {\n				return\n			}", "			if err == errDisconnect {\n				return\n			}\n			log.Warningf(\"(%s) Error processing %s: %v\", p.cid(), msg.Name(), err)")])
+
+# ---------------------------------------------------------------- C10
+pos("C10", "clean-flag-inverted", "CleanSession=1 resumes, CleanSession=0 starts afresh",
+    [(SRV, "	if !req.CleanSession() {\n		if svc.sess, err = svr.sessMgr.Get(cid); err == nil {", "	if req.CleanSession() {\n		if svc.sess, err = svr.sessMgr.Get(cid); err == nil {")],
+    ["C10/P8-guard-contract/getSession:clean(CleanSession=1):never(Session.Update)"])
+pos("C10", "session-present-on-new-session", "CONNACK claims a stored session although a new one was created",
+    [(SRV, "		resp.SetSessionPresent(false)\n\n		if err := svc.sess.Init(req); err != nil {", "		resp.SetSessionPresent(true)\n\n		if err := svc.sess.Init(req); err != nil {")],
+    ["C10/P8-guard-contract/getSession:fresh(CleanSession=0,none-stored):must(SetSessionPresent(false))"])
+pos("C10", "teardown-deletes-persistent-session", "every session is deleted at the end of the connection",
+    [(SVC, "	if svc.sess.Cmsg.CleanSession() && svc.sessMgr != nil {", "	if svc.sessMgr != nil {")],
+    ["C10/P8-guard-contract/teardown:delete-iff-clean"])
+pos("C10", "addtopic-keeps-first-qos", "a re-subscription at another QoS is not recorded",
+    [(SESS, "	s.topics[topic] = qos\n", "	if _, ok := s.topics[topic]; !ok {\n		s.topics[topic] = qos\n	}\n")],
+    ["C10/T5-co-update/Session.AddTopic:records-filter-and-qos"])
+pos("C10", "restore-skipped", "a resumed session's subscriptions are not re-registered",
+    [(SVC, "		for i, t := range topics {\n			svc.topicsMgr.Subscribe([]byte(t), qoss[i], &svc.onpub)\n		}\n", "		_, _ = topics, qoss\n")],
+    ["C10/P4-loop-contract/start:restores-session-subscriptions"])
+pos("C10", "store-keyed-by-constant", "all sessions share one store entry",
+    [("sessions/memprovider.go", "	mp.st[id] = &Session{id: id}\n	return mp.st[id], nil", "	mp.st[\"\"] = &Session{id: id}\n	return mp.st[\"\"], nil")],
+    ["C10/P9-who-may/MemProvider.New:keyed-by-id"])
+neg("C10", "neg-getsession-early-return", "getSession with an early return for the resumed case",
+    [(SRV, """	if !req.CleanSession() {
+		if svc.sess, err = svr.sessMgr.Get(cid); err == nil {
+			resp.SetSessionPresent(true)
+
+			if err := svc.sess.Update(req); err != nil {
+				return err
+			}
+		}
+	}
+
+	// If CleanSession, or no existing session found, then create a new one
+	if svc.sess == nil {
+		if svc.sess, err = svr.sessMgr.New(cid); err != nil {
+			return err
+		}
+
+		resp.SetSessionPresent(false)
+
+		if err := svc.sess.Init(req); err != nil {
+			return err
+		}
+	}
+
+	return nil
+""", """	if !req.CleanSession() {
+		if svc.sess, err = svr.sessMgr.Get(cid); err == nil {
+			resp.SetSessionPresent(true)
+			return svc.sess.Update(req)
+		}
+	}
+
+	// If CleanSession, or no existing session found, then create a new one
+	if svc.sess == nil {
+		svc.sess, err = svr.sessMgr.New(cid)
+		if err != nil {
+			return err
+		}
+
+		resp.SetSessionPresent(false)
+		return svc.sess.Init(req)
+	}
+
+	return nil
+""")])
+neg("C10", "neg-memprovider-new-local", "New builds the session in a local",
+    [("sessions/memprovider.go", "	mp.st[id] = &Session{id: id}\n	return mp.st[id], nil", "	sess := &Session{id: id}\n	mp.st[id] = sess\n	return sess, nil")])
+neg("C10", "neg-teardown-delete-nested", "teardown's delete condition nested",
+    [(SVC, "	if svc.sess.Cmsg.CleanSession() && svc.sessMgr != nil {\n		svc.sessMgr.Del(svc.sess.ID())\n	}", "	if svc.sessMgr != nil {\n		if svc.sess.Cmsg.CleanSession() {\n			svc.sessMgr.Del(svc.sess.ID())\n		}\n	}")])
+neg("C10", "neg-restore-locals", "restore loop with locals",
+    [(SVC, "		for i, t := range topics {\n			svc.topicsMgr.Subscribe([]byte(t), qoss[i], &svc.onpub)\n		}\n", "		for i := range topics {\n			filter, q := []byte(topics[i]), qoss[i]\n			svc.topicsMgr.Subscribe(filter, q, &svc.onpub)\n		}\n")])
+
 
 def main():
     os.makedirs(OUT, exist_ok=True)
